@@ -36,7 +36,9 @@ pub fn self_fields_used(b: &syn::Block) -> BTreeSet<String> {
             while i < toks.len() {
                 match &toks[i] {
                     TokenTree::Ident(id) if id == "self" => {
-                        if let (Some(TokenTree::Punct(p)), Some(TokenTree::Ident(f))) = (toks.get(i + 1), toks.get(i + 2)) { if p.as_char() == '.' { self.0.insert(f.to_string()); i += 3; continue; } }
+                        // `self.name(..)` is a method call on `self` as a whole, `self.name` a field
+                        let is_call = matches!(toks.get(i + 3), Some(TokenTree::Group(g)) if g.delimiter() == proc_macro2::Delimiter::Parenthesis) || matches!(toks.get(i + 3), Some(TokenTree::Punct(c)) if c.as_char() == ':');
+                        if let (Some(TokenTree::Punct(p)), Some(TokenTree::Ident(f))) = (toks.get(i + 1), toks.get(i + 2)) { if p.as_char() == '.' && !is_call { self.0.insert(f.to_string()); i += 3; continue; } }
                         self.0.insert("self".into());
                     }
                     TokenTree::Group(g) => self.visit_tokens(g.stream()),
@@ -963,7 +965,9 @@ impl<'c> VisitMut for Rw<'c> {
             let name = format!("{}__{}{}", self.lift_prefix, if is_async { "async" } else { "closure" }, k);
             let ctor = ident(&format!("{}__new", name));
             // when places of `self` are captured disjointly, a bare `self` seen in macro tokens is not a capture of its own
-            let caps: Vec<String> = if caps.iter().any(|c| c.starts_with("self.")) { caps.into_iter().filter(|c| c != "self").collect() } else { caps };
+            // (a `self` among the captures is `self` as a whole: a method call on it, or `self` passed on; the places `self.x` it is
+            // captured along with are part of it)
+            let caps: Vec<String> = if caps.iter().any(|c| c == "self") { caps.into_iter().filter(|c| !c.starts_with("self.")).collect() } else { caps };
             // L1o: a constructor whose contract signature names its parameters takes the captures in THAT order (the order in which the
             // body happens to mention them first is incidental)
             let caps: Vec<String> = match self.ctor_param_names.get(&format!("{}__new", name)) {
@@ -1200,11 +1204,16 @@ impl Free {
     fn is_bound(&self, n: &str) -> bool { self.bound.iter().any(|s| s.contains(n)) }
     fn use_(&mut self, n: String) { if !self.is_bound(&n) && !self.free.contains(&n) { self.free.push(n); } }
     fn tokens(&mut self, ts: TokenStream) {
+        // `self . name` not followed by a call is the place `self.name` (disjoint capture); any other `self` is `self` as a whole
         let v: Vec<TokenTree> = ts.clone().into_iter().collect();
-        for i in 0..v.len() { if let TokenTree::Ident(id) = &v[i] { if id == "self" { if let (Some(TokenTree::Punct(p)), Some(TokenTree::Ident(f))) = (v.get(i + 1), v.get(i + 2)) { if p.as_char() == '.' { self.use_(format!("self.{}", f)); } } } } }
+        for i in 0..v.len() { if let TokenTree::Ident(id) = &v[i] { if id == "self" {
+            let field = match (v.get(i + 1), v.get(i + 2)) { (Some(TokenTree::Punct(p)), Some(TokenTree::Ident(f))) if p.as_char() == '.' => Some(f.to_string()), _ => None };
+            let is_call = matches!(v.get(i + 3), Some(TokenTree::Group(g)) if g.delimiter() == proc_macro2::Delimiter::Parenthesis) || matches!(v.get(i + 3), Some(TokenTree::Punct(c)) if c.as_char() == ':');
+            match field { Some(f) if !is_call => self.use_(format!("self.{}", f)), _ => self.use_("self".to_string()) }
+        } } }
         self.tokens_inner(ts)
     }
-    fn tokens_inner(&mut self, ts: TokenStream) { for t in ts { match t { TokenTree::Ident(i) => { let s = i.to_string(); if s.chars().next().map(|c| c.is_lowercase() || c == '_').unwrap_or(false) { self.use_(s); } } TokenTree::Group(g) => self.tokens(g.stream()), _ => {} } } }
+    fn tokens_inner(&mut self, ts: TokenStream) { for t in ts { match t { TokenTree::Ident(i) => { let s = i.to_string(); if s != "self" && s.chars().next().map(|c| c.is_lowercase() || c == '_').unwrap_or(false) { self.use_(s); } } TokenTree::Group(g) => self.tokens(g.stream()), _ => {} } } }
 }
 impl<'a> Visit<'a> for Free {
     fn visit_expr_path(&mut self, p: &'a syn::ExprPath) { if let Some(i) = p.path.get_ident() { self.use_(i.to_string()); } }
@@ -1467,11 +1476,21 @@ pub fn inline_new_helpers(block: &mut syn::Block, helpers: &std::collections::BT
         else if pats.len() == 1 { let p = &pats[0]; let a = &args[0]; parse_quote!({ let #p = #a; #(#stmts)* }) }
         else { parse_quote!({ let (#(#pats),*) = (#(#args),*); #(#stmts)* }) }
     }
-    struct V<'a> { helpers: &'a std::collections::BTreeMap<String, Helper>, fired: usize, depth: usize }
+    // inside a closure or an async block a call `self.f(..)` makes the closure capture `self` as a whole, while the helper's statements
+    // written out would capture only the fields they name: there the call is left alone (what a closure owns is part of what is verified)
+    fn is_self_method(e: &Expr) -> bool {
+        let inner = match e { Expr::Await(a) => &*a.base, Expr::Try(t) => match &*t.expr { Expr::Await(a) => &*a.base, o => o }, o => o };
+        matches!(inner, Expr::MethodCall(m) if matches!(&*m.receiver, Expr::Path(p) if p.path.is_ident("self")))
+    }
+    struct V<'a> { helpers: &'a std::collections::BTreeMap<String, Helper>, fired: usize, depth: usize, capturing: usize }
     impl<'a> VisitMut for V<'a> {
         fn visit_expr_mut(&mut self, e: &mut Expr) {
+            let cap = matches!(e, Expr::Closure(_) | Expr::Async(_));
+            if cap { self.capturing += 1; }
             visit_mut::visit_expr_mut(self, e);
+            if cap { self.capturing -= 1; }
             if self.depth > 3 { return; }
+            if self.capturing > 0 && is_self_method(e) { return; }
             // `f(..)?`: an error the helper leaves with through a `?` of its own is the error this `?` passes on
             if let Expr::Try(t) = e { if let Some((h, args)) = callee(&t.expr, self.helpers) {
                 let (ret, _) = has_return_or_try(&h.block);
@@ -1510,7 +1529,7 @@ pub fn inline_new_helpers(block: &mut syn::Block, helpers: &std::collections::BT
         Some(Stmt::Expr(te, Some(_))) => { if let Some((h, args)) = callee(te, helpers) { if matches!(h.sig.output, syn::ReturnType::Default) { *te = build(&h, args); fired += 1; } } }
         _ => {}
     }
-    let mut v = V { helpers, fired: 0, depth: 0 };
+    let mut v = V { helpers, fired: 0, depth: 0, capturing: 0 };
     v.visit_block_mut(block);
     for _ in 0..(fired + v.fired) { cx.fire("H1"); }
 }
